@@ -2966,6 +2966,10 @@ bounded_affine_image(const Variable var,
                              LESS_OR_EQUAL,
                              ub_expr,
                              denominator);
+    // The image computation may have discovered that *this is empty.
+    if (marked_empty()) {
+      return;
+    }
     if (denominator > 0) {
       refine_no_check(lb_expr <= denominator*var);
     }
@@ -2979,6 +2983,10 @@ bounded_affine_image(const Variable var,
                              GREATER_OR_EQUAL,
                              lb_expr,
                              denominator);
+    // The image computation may have discovered that *this is empty.
+    if (marked_empty()) {
+      return;
+    }
     if (denominator > 0) {
       refine_no_check(denominator*var <= ub_expr);
     }
